@@ -1366,6 +1366,8 @@ E2E_CORPUS: List[Dict[str, Any]] = [
     dict(op='write', B=0, M=1, size=3000, seed=104, fault='fsize', limit=1000, sparse=False, remote_copy=True, off=0, ooo=False),
     dict(op='copy', B=16384, M=2, size=30000, seed=105, fault='fsize', limit=20000, sparse=False, remote_copy=True, off=0, ooo=False),
     dict(op='copy', B=16384, M=2, size=30000, seed=106, fault='fsize', limit=20000, sparse=False, remote_copy=False, off=0, ooo=False),
+    dict(op='put', B=16384, M=2, size=30000, seed=107, fault='fsize', limit=29999, sparse=False, remote_copy=True, off=0, ooo=False),
+    dict(op='write', B=4096, M=3, size=8193, seed=108, fault='fsize', limit=8192, sparse=False, remote_copy=True, off=0, ooo=True),
     # a WRITE answered with an FX_EOF status
     dict(op='write', B=1000, M=3, size=10000, seed=111, fault='write-eof', nth=4, sparse=False, remote_copy=True, off=0, ooo=False),
     dict(op='put', B=1000, M=3, size=10000, seed=112, fault='write-eof', nth=4, sparse=True, remote_copy=True, off=0, ooo=False),
